@@ -28,5 +28,4 @@ def run(tier, seed, t0):
 
 
 def replay(path):
-    print("C07 cases are deterministic; re-run ./vcheck C07 (the case id names the failing input)")
-    sys.exit(2)
+    vlib.replay_enum(PID, build(), path, env=None)
